@@ -505,10 +505,19 @@ func (r *Reconciler) Reconcile(ctx context.Context, req reconcile.Request) (reco
 		return reconcile.Result{}, err
 	}
 
-	// Handle changes in labels
-	same := reflect.DeepEqual(pr.GetCommonLabels(), p.GetCommonLabels())
+	// Handle changes in labels, and optional fields that were removed from the
+	// package. The patch applied above cannot remove what it omits, so a pull
+	// secret or ControllerConfig reference that was removed from the package
+	// would otherwise stay on the revision.
+	same := reflect.DeepEqual(pr.GetCommonLabels(), p.GetCommonLabels()) &&
+		(len(pr.GetPackagePullSecrets()) == 0 || len(p.GetPackagePullSecrets()) > 0)
+	if pwok && prok && prwr.GetControllerConfigRef() != nil && pwr.GetControllerConfigRef() == nil {
+		same = false
+		prwr.SetControllerConfigRef(nil)
+	}
 	if !same {
 		pr.SetCommonLabels(p.GetCommonLabels())
+		pr.SetPackagePullSecrets(p.GetPackagePullSecrets())
 		if err := r.client.Update(ctx, pr); err != nil {
 			if kerrors.IsConflict(err) {
 				return reconcile.Result{Requeue: true}, nil
